@@ -48,16 +48,9 @@ def patch(pattern):
     return p1, p2
 
 
-KNOWN_INPUTS = os.path.join(VERIF, "known_inputs", "C06-nested-branch-edges.txt")
-
-
-def known_role(text, ast, deterministic, listed):
-    """Attribution to KF-rule-nested-branch-edges. Expressions of the deterministic part of the
-    program set (corpus, enumerations, rule family) are identified *by input*: only the expressions
-    listed in known_inputs/ (those that fail on the pinned tree) are known. Seeded random programs
-    cannot be listed; for them the syntactic class decides."""
-    if text in deterministic:
-        return text in listed
+def nested_edge(text, ast):
+    """The syntactic class of KF-rule-nested-branch-edges (which inputs of the deterministic part of
+    the program set are known is decided by the input list, see core.Report.candidate)."""
     if ast is None:
         alt = gen.parse(text)
         if alt is not None and gen.show(alt) == text:
@@ -77,9 +70,7 @@ def run():
         if t not in have and t not in fam:
             fam[t] = g
     ftexts = list(fam)
-    deterministic = set(progs.program_asts(max_random=0)) | set(fam)
-    listed = set(l.rstrip("\n") for l in open(KNOWN_INPUTS, encoding="utf-8")) if os.path.exists(KNOWN_INPUTS) else set()
-    failing_det = set()
+    rep.extra_deterministic = set(fam)
     frows = probe([{"op": "glob", "e": t} for t in ftexts])
     fam_built = 0
     fam_rejected = 0
@@ -126,10 +117,8 @@ def run():
         if not r["m"]:
             raise Inconclusive("witness %r for %r (%s) does not reproduce" % (w, text, k[0]))
         roles = set()
-        if known_role(text, ast, deterministic, listed):
+        if nested_edge(text, ast):
             roles.add("boundary-at-nested-branch-edge")
-        if text in deterministic:
-            failing_det.add(text)
         if k[0] == "wf":
             roles.add("built-glob-has-adjacent-boundaries")
         else:
@@ -141,15 +130,9 @@ def run():
     for i in sometimes:
         text, row, ast = targets[i]
         roles = {"glob-sometimes-rooted"}
-        if known_role(text, ast, deterministic, listed):
+        if nested_edge(text, ast):
             roles.add("boundary-at-nested-branch-edge")
-        if text in deterministic:
-            failing_det.add(text)
-        rep.candidate(roles, {"short": {"program": text, "has_root": "Sometimes", "pattern": row["re"]}})
-    if os.environ.get("VERIF_DUMP_KNOWN_INPUTS"):
-        # maintenance only (never part of a check run): writes the failing deterministic inputs
-        with open(os.environ["VERIF_DUMP_KNOWN_INPUTS"], "w", encoding="utf-8") as f:
-            f.write("".join(t + "\n" for t in sorted(failing_det)))
+        rep.candidate(roles, {"short": {"program": text, "clause": "sometimes", "has_root": "Sometimes", "pattern": row["re"]}})
     for i in range(0, len(targets), max(1, len(targets) // 8)):
         rep.sample({"program": targets[i][0], "compiled": targets[i][1]["re"], "patched": pats[i][0],
                     "obligations": "L'(g) ∩ Σ*//Σ* = ∅ ; L'(g) ⊆ rooted or L'(g) ⊆ unrooted according to has_root()",
